@@ -16,8 +16,7 @@
   `okB` (an item in a bucket where no lookup searches for it).
 
   `okB` is an executable part of the invariant (`C16_striped_no_loss_no_dup`: every item sits in bucket
-  `h key % capacity`, no bucket holds a key twice; lock words and ghost holders agree), evaluated by the driver after
-  every accepted step.
+  `h key % capacity`, no bucket holds a key twice), evaluated by the driver after every accepted step.
 -/
 import CdsVerif.Algo.Striped.Model
 namespace CdsVerif.Algo.Striped
@@ -55,10 +54,9 @@ def relevant (loc : String) : Bool :=
 def okB (r : RSt) : Bool :=
   let s := r.st
   let cap := s.mask + 1
-  ((List.range cap).all fun b =>
+  (List.range cap).all fun b =>
     (s.bkt b).all (fun e => r.cfg.h e.1 % cap == b) &&
-    decide (((s.bkt b).map (·.1)).Nodup)) &&
-  ((List.range (s.gen + 1)).all fun g => (List.range (s.asz g)).all fun c => s.lk g c == (s.holder g c).isSome)
+    decide (((s.bkt b).map (·.1)).Nodup)
 
 /-- Every run of the replay model is a run of the machine (same schedule, same observations, same states). -/
 theorem modelR_run (sched : List (Tid × Act)) :
